@@ -478,6 +478,9 @@ func (x *Exec) contractCall(fn *ssa.Function, key string, ctr *Contract, args []
 		x.oblige(st, "pre", cl.Label, shortKey(x.P, key)+":"+clauseName(cl), g, pos)
 	}
 	old := st.clone()
+	// callee writes some components only in objects it allocates itself: remember old contents
+	calleeFresh := x.expandKeys(ctr.Fresh)
+	topBefore := st.allocTop
 	// effects
 	switch {
 	case ctr.Pure:
@@ -497,6 +500,14 @@ func (x *Exec) contractCall(fn *ssa.Function, key string, ctr *Contract, args []
 		} else {
 			x.bumpTop(st)
 			x.havocKeys(st, ws.sortedKeys())
+		}
+	}
+	for k := range calleeFresh {
+		ci := x.compInfoOfKey(k)
+		b := x.heapSym(old, k, ci)
+		a := x.heapSym(st, k, ci)
+		if a != b {
+			x.frameOld(b, a, topBefore)
 		}
 	}
 	for _, lg := range ctr.Appends {
@@ -905,6 +916,7 @@ func (x *Exec) appendOp(st *State, st0 types.Type, s, t *Val, tt types.Type, pos
 			T := x.sc.define("tarr", "(Array "+I+" "+l.Sort+")", sel(E, tptr))
 			nA = x.rangeCopy(A, T, end, toff, n, l.Sort)
 		}
+		x.freshCheck(st, key, rptr, pos)
 		x.setHeap(st, key, ci, sto(E, rptr, nA))
 	}
 	r := &Val{K: KSlice, T: st0}
@@ -947,6 +959,7 @@ func (x *Exec) copyOp(st *State, d, s *Val, dt types.Type, pos token.Pos) *Val {
 			x.sc.emit("(assert (forall ((i %s)) (! (= (select %s i) (strbyte %s i)) :pattern ((select %s i)))))", I, sa, s.S, sa)
 			nd = x.rangeCopy(D, sa, d.E[1].S, x.sc.iConst(0), n, l.Sort)
 		}
+		x.freshCheck(st, key, d.E[0].S, pos)
 		x.setHeap(st, key, ci, sto(E, d.E[0].S, nd))
 	}
 	return scalar(types.Typ[types.Int], n, I)
